@@ -7,7 +7,7 @@ From Chum Require Export SemLaws.
 (* no recover_with anywhere (recovery turns the pending error into a reported one and starts afresh) *)
 Fixpoint norec (g : G) : bool :=
   match g with
-  | End | Empty | Any | Just _ | OneOf _ | NoneOf _ | Select _ _ | Custom _ _ | JustCfg _ | Var _ => true
+  | End | Empty | Any | Just _ | OneOf _ | NoneOf _ | Select _ _ | Custom _ _ | JustCfg _ | Var _ | Skip _ => true
   | Map _ a | MapWith _ a | To _ a | Ignored a | ToSpan a | ToSlice a | Filter _ a | TryMap _ _ _ a
   | TryMapWith _ _ _ a | Validate _ _ a | OrNot a | Not a | Rewind a | Labelled _ _ a | MapErr _ a
   | WithCtx _ a | MapCtx _ a | Memo _ a | Rec a | NestedIn a => norec a
@@ -202,8 +202,10 @@ Proof.
     destruct (run a ctx p r) as [[[[[v1 p1] e1]|] a1]|] eqn:E; try discriminate; injection H as <- <- <-;
       apply HM in E; auto; split; try apply E; exact I.
   - destruct its; try discriminate.
-    destruct (rep_snext run a lo0 hi0 ctx n p r) as [[[x0 c'] r0]|] eqn:E; [|discriminate].
-    injection H as <- <- <-. exact (rep_snext_mono _ _ _ _ _ _ _ _ _ _ Hn He Hp E).
+    + destruct (rep_snext run a lo0 hi0 ctx n p r) as [[[x0 c'] r0]|] eqn:E; [|discriminate].
+      injection H as <- <- <-. exact (rep_snext_mono _ _ _ _ _ _ _ _ _ _ Hn He Hp E).
+    + destruct (run (TryMap PFalse FId k Empty) ctx p r) as [[[?|] r1]|] eqn:E; try discriminate.
+      injection H as <- <- <-. apply HM in E; auto. destruct E as (E1 & E2). split; [exact E1 | apply E2; reflexivity].
 Qed.
 
 Lemma sdrive_mono : forall fuel i ctx its lim acc acce p r o r' p0, norec_it i = true -> envok ctx -> p <= length toks -> p0 <= p ->
@@ -526,6 +528,7 @@ Proof.
     exact (proj1 (pratt_mono _ IH IHE g ops ctx Hn1 Hn2 He n) _ _ _ _ _ Hp H).
   - (* GroupArr *) eapply (group_sem_mono _ IH IHE) in H; eauto.
   - discriminate.
+  - (* Skip *) injection H as <- <-. split; [apply rle_refl | discriminate].
   - (* ExtWrap *) discriminate.
 Qed.
 
